@@ -286,7 +286,9 @@ func sequentialMerge(reqCloner func(*Request) *Request, sequentialReplacements [
 				if !response.IsComplete {
 					break TxLoop
 				}
-				parts[i] = response
+				// the accumulator merges later answers into the data map of the first one:
+				// values are propagated from a private copy of each answer
+				parts[i] = snapshotResponse(response)
 			}
 		}
 
@@ -294,6 +296,17 @@ func sequentialMerge(reqCloner func(*Request) *Request, sequentialReplacements [
 		cancel()
 		return result, err
 	}
+}
+
+func snapshotResponse(r *Response) *Response {
+	res := *r
+	if r.Data != nil {
+		res.Data = make(map[string]interface{}, len(r.Data))
+		for k, v := range r.Data {
+			res.Data[k] = v
+		}
+	}
+	return &res
 }
 
 type incrementalMergeAccumulator struct {
